@@ -447,7 +447,9 @@ theorem C12_nested_accumulates (en es api : String) (a0 : ALevel) (rest : List (
   have hlv : a0.level.map = a0.map := rfl
   simp only [evOf, runEvents, attachState, Bool.and_false, hlv, hat]
   simp only [Bool.false_eq_true, if_false, Option.map_some]
-  rw [runEvents_accumulates en es api rest _ hr]
+  -- what the translator read from `to_exception` on this run:
+  have hpt : Gen.Errors.toExceptionSetsPassThrough = false := rfl
+  rw [runEvents_accumulates hpt en es api rest _ hr]
   simp
 
 /-- One converted entry per converted call on the path, however many wrappers lie in between. -/
